@@ -10,7 +10,8 @@ sel=${2:-.}
 for d in seeded/*/; do
   id=$(basename $d)
   echo "$id" | grep -Eq "$sel" || continue
-  prop=$(python3 -c "import json;print(json.load(open('$d/meta.json'))['property'][:3])")
+  # the check expected to report it: the first one named under "checks" (the seed's own property by default)
+  prop=$(python3 -c "import json;m=json.load(open('$d/meta.json'));print((list(m.get('checks',{}).keys()) or [m['property']])[0][:3])")
   git -C /repo apply /verif/$d/patch.diff || { echo "$id patch-does-not-apply" >> $out; continue; }
   r=$(./check $prop --tier quick 2>&1 | grep -E "^VIOLATION|^OK" | head -2 | cut -c1-300 | tr '\n' ' ')
   git -C /repo checkout -- .
